@@ -71,6 +71,8 @@ def sub(t, m):
 
 
 def check(ctx):
+    from ..lib import discarded_results
+    ctx.sub(discarded_results, 'C03.S4', ('qstrader/broker/portfolio/',), 'P&L figures are computed from the values the code actually updated')
     ctx.sub(s1_identities)
     ctx.sub(s2_accumulators)
     ctx.sub(s3_remark)
